@@ -6,6 +6,7 @@ mod c04;
 mod c05;
 mod c06;
 mod c08;
+mod c09;
 mod c10;
 mod c12;
 mod c13;
@@ -51,6 +52,7 @@ fn main() {
         let v: serde_json::Value = serde_json::from_str(&txt).expect("replay file is JSON");
         let code = match v["property"].as_str().unwrap_or("") {
             "C17" => c17::replay(&v),
+            "C09" => c09::replay(&v),
             "C08" => c08::replay(&v),
             "C02" => c02::replay(&v),
             "C15" => c15::replay(&v),
@@ -116,6 +118,7 @@ fn main() {
         "C05" => c05::run(tier),
         "C06" => c06::run(tier),
         "C08" => c08::run(tier),
+        "C09" => c09::run(tier),
         "C10" => c10::run(tier),
         "C12" => c12::run(tier),
         "C13" => c13::run(tier),
